@@ -39,9 +39,13 @@ func VerifH_C04_growProcs() {
 	go out.b.heartbeat()
 	p.actionInfos = []*ActionPluginStaticInfo{{PluginStaticInfo: &PluginStaticInfo{Type: "joiner",
 		Factory: func() (AnyPlugin, AnyConfig) { return &verifJoiner{w: w}, nil }}}}
-	proc := p.newProc(0)
-	p.Procs = append(p.Procs, proc)
-	proc.start(p.actionParams, p.logger.Sugar())
+	nproc := vf.Param("PROCS0", 1)
+	p.procCount.Store(int32(nproc))
+	for i := 0; i < nproc; i++ {
+		proc := p.newProc(i)
+		p.Procs = append(p.Procs, proc)
+		proc.start(p.actionParams, p.logger.Sugar())
+	}
 	p.streamer.start()
 	go p.growProcs()
 
@@ -54,10 +58,19 @@ func VerifH_C04_growProcs() {
 		w.order = append(w.order, off)
 		p.streamEvent(e)
 	}
-	put(1, "a") // opens a multi-line message: the only processor parks behind it
-	time.Sleep(50 * time.Millisecond)
-	bPutAt := vf.Now()
-	put(2, "b")
+	var bPutAt int64
+	if vf.Param("GAP", 50) == 0 && vf.Choose("b-first", 2) == 1 {
+		bPutAt = vf.Now()
+		put(2, "b")
+		put(1, "a")
+	} else {
+		put(1, "a") // opens a multi-line message: a processor parks behind it
+		if gap := vf.Param("GAP", 50); gap > 0 {
+			time.Sleep(time.Duration(gap) * time.Millisecond)
+		}
+		bPutAt = vf.Now()
+		put(2, "b")
+	}
 	n := 2 + vf.Choose("continuation-lines", vf.Param("CONT", 3))
 	for i := 0; i < n; i++ {
 		time.Sleep(200 * time.Millisecond) // more often than the event time-out (300 ms): stream a never times out meanwhile
